@@ -41,6 +41,34 @@ def pGood : Stmt := fn
         [.assign 9 [st "x"] (tr [num "4", nm "x", nm "v"])] []] [] [] false,
    .ret 10 [tr [num "5", nm "x"]]]
 
+/-- a program exercising the constructs added to the fragment:
+```
+def f(a, b):
+    global g
+    def h(u): return tr(9, u)
+    x = tr(1, O.yy, tr(2, tr(3, a)))     # a pure operand (O.yy) overtaken by a nested call
+    O.p = tr(4, x)                       # attribute store
+    O[b] = x                             # item store
+    (u, v) = (x, tr(5))                  # unpacking
+    x += tr(6, u - v)                    # augmented assignment
+    assert x, b
+    del O[a], u
+    if x < tr(7): raise E(tr(8, x))
+    return x
+``` -/
+def pGood2 : Stmt := fn
+  [.global 2 ["g"],
+   .functionDef 3 "h" (.arguments 0 [] [.arg 0 "u" []] [] [] [] [] []) [.ret 4 [tr [num "9", nm "u"]]] [] [] false,
+   .assign 5 [st "x"] (tr [num "1", .attr 0 (nm "O") "yy" .load, tr [num "2", tr [num "3", nm "a"]]]),
+   .assign 6 [.attr 0 (nm "O") "p" .store] (tr [num "4", nm "x"]),
+   .assign 7 [.subscript 0 (nm "O") (nm "b") .store] (nm "x"),
+   .assign 8 [.seq 0 .tuple [st "u", st "v"] .store] (.seq 0 .tuple [nm "x", tr [num "5"]] .load),
+   .augAssign 9 (st "x") "Add" (tr [num "6", .binop 0 "Sub" (nm "u") (nm "v")]),
+   .assert_ 10 (nm "x") [nm "b"],
+   .delete 11 [.subscript 0 (nm "O") (nm "a") .del, .name 0 "u" .del],
+   .if_ 12 (.compare 0 (nm "x") ["Lt"] [tr [num "7"]]) [.raise 13 [.call 0 (nm "E") [tr [num "8", nm "x"]] []] []] [],
+   .ret 14 [nm "x"]]
+
 def run (p : Stmt) (a b : Int) : Outcome × List Event := observe (runFn stdOracle stdGlobals p [.int a, .int b])
 
 def runAnf (cfg : Config) (p : Stmt) (a b : Int) : Option (Outcome × List Event) :=
@@ -50,8 +78,9 @@ def runAnf (cfg : Config) (p : Stmt) (a b : Int) : Option (Outcome × List Event
 
 /-- the observable, flattened to integers: tags of the `tr` calls in order, then the returned integer -/
 def sig (o : Outcome × List Event) : List Int :=
-  (o.2.filterMap fun e => if e.callee == "tr" then (match e.args with | .int t :: _ => some t | _ => none) else none)
-  ++ (match o.1 with | .ret (.int i) => [i] | _ => [])
+  (o.2.filterMap fun e => if e.callee == "tr" then (match e.args with | .int t :: _ => some t | _ => none)
+      else if e.what == "call" then none else some (-(e.args.length : Int)))    -- stores / deletes show up as -arity
+  ++ (match o.1 with | .ret (.int i) => [i] | .raise _ => [-99] | _ => [])
 
 def sigAnf (cfg : Config) (p : Stmt) (a b : Int) : List Int :=
   match runAnf cfg p a b with
